@@ -14,53 +14,70 @@ ERROR_CALLBACK_ERROR = 28
 MODULES = ["tests", "math", "hash", "time", "string", "pe", "elf"]
 
 
+NS_NAMES = ["ns", "ns1", "ns10", "n", "ns1x", "corp", "corp_eu", "a", "ab", "abc", "zz", "z", "ns2", "ns20"]
+CHAIN = b"NEEDLE" + b"." * 210 + b"ZZ"
+
+
 def build_case(seed_cid):
     seed, cid = seed_cid
     rng = random.Random(seed)
-    nns = rng.choice([1, 1, 2, 3])
-    planted = rng.random() < 0.6
-    buf = (b"xx NEEDLE yy " if planted else b"xx nothing yy ") + bytes(rng.randrange(256) for _ in range(rng.randint(0, 40)))
+    nns = rng.choice([1, 1, 2, 3, 3, 10, 12])
+    # namespace names that are prefixes of one another, in random order (a name added later may extend an earlier one)
+    ns_names = rng.sample(NS_NAMES, nns) if rng.random() < 0.6 else ["ns%d" % n for n in range(nns)]
+    # two buffers with opposite truth for the string rules and different sizes; scans alternate between them on one
+    # reused scanner, so whatever a scan leaves behind (rule flags, namespace vetoes, disabled strings) shows in the next
+    tail0 = bytes(rng.randrange(256) for _ in range(rng.randint(0, 40)))
+    planted0 = rng.random() < 0.6
+    bufs = [((b"xx NEEDLE yy " + CHAIN) if planted0 else b"xx nothing yy ") + tail0,
+            (b"xx nothing yy " if planted0 else (b"q NEEDLE " + CHAIN + b" and more filler to change the size")) + tail0[:7]]
+    planted = [planted0, not planted0]
     pieces = []
-    rules = []      # dicts: ns, name, glob, priv, truth
+    rules = []      # dicts: ns, name, glob, priv, truth (one per buffer)
     imports_order = []
+    few = nns >= 10
+    wide = few and rng.random() < 0.35      # 60-84 rules: per-scan rule bitmaps longer than one 64-bit word
     for n in range(nns):
-        ns = "ns%d" % n
+        ns = ns_names[n]
         src = []
-        for mod in rng.sample(MODULES, rng.choice([0, 0, 1, 2, 3])):
+        for mod in rng.sample(MODULES, rng.choice([0, 0, 1, 2, 3]) if not few else rng.choice([0, 0, 0, 1])):
             src.append('import "%s"' % mod)
             if mod not in imports_order:
                 imports_order.append(mod)
-        nr = rng.randint(1, 6)
+        nr = rng.randint(1, 6) if not few else (rng.randint(5, 7) if wide else rng.randint(1, 2))
         local = []
         for k in range(nr):
             name = "r%d" % k
-            glob = rng.random() < 0.2
+            glob = rng.random() < (0.2 if not few else 0.45)
             priv = rng.random() < 0.25
             kind = rng.random()
             strings = ""
             if kind < 0.2:
-                cond, truth = "true", True
-            elif kind < 0.35:
-                cond, truth = "false", False
+                cond, truth = "true", [True, True]
+            elif kind < 0.3:
+                cond, truth = "false", [False, False]
             elif kind < 0.42:
-                lim = rng.choice([0, 5, len(buf), len(buf) + 1, 1000])
-                cond, truth = "filesize > %d" % lim, len(buf) > lim
+                lim = rng.choice([0, 5, len(bufs[0]), len(bufs[0]) + 1, len(bufs[1]), 1000])
+                cond, truth = "filesize > %d" % lim, [len(b) > lim for b in bufs]
             elif kind < 0.5:
                 # a condition whose value is undefined (counts as false)
                 cond, truth = rng.choice(["uint16(100000) == 5", "uint8(filesize) >= 0", "int32(filesize - 1) != 7",
-                                          "not uint8(4000) == 1", "1 \\ (filesize - filesize) == 0"]), False
-            elif kind < 0.75:
+                                          "not uint8(4000) == 1", "1 \\ (filesize - filesize) == 0"]), [False, False]
+            elif kind < 0.68:
                 strings = ' strings: $a = "NEEDLE"'
-                cond, truth = "$a", planted
+                cond, truth = "$a", list(planted)
+            elif kind < 0.76:
+                # a string split at a jump of more than 200 bytes (chained): its match is confirmed through another path
+                strings = " strings: $c = { 4E 45 45 44 4C 45 [205-215] 5A 5A }"
+                cond, truth = "$c", list(planted)
             elif kind < 0.85:
                 strings = ' strings: $a = "NEEDLE"'
-                cond, truth = "not $a", not planted
-            elif local:
+                cond, truth = "not $a", [not x for x in planted]
+            elif local and not few:
                 ref = rng.choice(local)
                 neg = rng.random() < 0.4
-                cond, truth = ("not " if neg else "") + ref["name"], (not ref["truth"]) if neg else ref["truth"]
+                cond, truth = ("not " if neg else "") + ref["name"], [(not t) if neg else t for t in ref["truth"]]
             else:
-                cond, truth = "filesize >= 0", True
+                cond, truth = "filesize >= 0", [True, True]
             src.append("%s%srule %s {%s condition: %s }" % ("global " if glob else "", "private " if priv else "", name,
                                                           strings, cond))
             d = dict(ns=ns, name=name, glob=glob, priv=priv, truth=truth, isref=cond.endswith(tuple("0123456789")) and "r" in cond.split()[-1])
@@ -68,43 +85,48 @@ def build_case(seed_cid):
             rules.append(d)
         pieces.append((ns, "\n".join(src) + "\n"))
     # references into a namespace whose global rules fail are not specified by the property: avoid
-    bad_ns = set(r["ns"] for r in rules if r["glob"] and not r["truth"])
+    bad_ns = set(r["ns"] for r in rules for j in (0, 1) if r["glob"] and not r["truth"][j])
     has_ref_in_bad = any(r["isref"] and r["ns"] in bad_ns for r in rules)
     lines = ["cnew 0"]
     for ns, text in pieces:
         lines.append("cadd 0 %s %s" % (hx(ns), hx(text)))
-    lines += ["crules 0 0", "buf 0 " + hx(buf), "snew 0 0"]
-    # expected uninterrupted sequences per flag setting
+    lines += ["crules 0 0", "buf 0 " + hx(bufs[0]), "buf 1 " + hx(bufs[1]), "snew 0 0"]
+    # expected uninterrupted sequences per flag setting and buffer
     plans = []
     for flags in (0, F_MATCH, F_NOMATCH, F_MATCH | F_NOMATCH):
         eff = flags if flags else (F_MATCH | F_NOMATCH)
-        seq = []
-        for mod in imports_order:
-            seq.append([IMPORT, mod])
-            seq.append([IMPORTED, mod])
-        for r in rules:
-            ok = r["truth"] and all(g["truth"] for g in rules if g["ns"] == r["ns"] and g["glob"])
-            if r["priv"]:
-                continue
-            if ok and (eff & F_MATCH):
-                seq.append([MATCHING, "%s:%s" % (r["ns"], r["name"])])
-            elif not ok and (eff & F_NOMATCH):
-                seq.append([NOT_MATCHING, "%s:%s" % (r["ns"], r["name"])])
-        seq.append([FINISHED, ""])
-        scans = [("-", None, None)]
-        for k in range(len(seq) - 1):
-            for act in ("a", "e"):
-                if seq[k][0] in (IMPORT, IMPORTED) and act == "a":
-                    continue      # abort on a module message: not specified by the property
-                scans.append(("%d:%s" % (k, act), k, act))
-        for script, k, act in scans:
-            use_scanner = rng.random() < 0.5
-            if use_scanner:
-                lines.append("scan s0 mem 0 %d 0 %s" % (flags, script))
-            else:
-                lines.append("scan r0 mem 0 %d 0 %s" % (flags, script))
-        plans.append((flags, seq, scans))
-    meta = dict(src="\n".join("// %s\n%s" % p for p in pieces), plans=plans, skip=has_ref_in_bad, buf=buf.hex(),
+        for j in ((0, 1) if rng.random() < 0.5 else (1, 0)):
+            seq = []
+            for mod in imports_order:
+                seq.append([IMPORT, mod])
+                seq.append([IMPORTED, mod])
+            for r in rules:
+                ok = r["truth"][j] and all(g["truth"][j] for g in rules if g["ns"] == r["ns"] and g["glob"])
+                if r["priv"]:
+                    continue
+                if ok and (eff & F_MATCH):
+                    seq.append([MATCHING, "%s:%s" % (r["ns"], r["name"])])
+                elif not ok and (eff & F_NOMATCH):
+                    seq.append([NOT_MATCHING, "%s:%s" % (r["ns"], r["name"])])
+            seq.append([FINISHED, ""])
+            scans = [("-", None, None)]
+            positions = list(range(len(seq) - 1))
+            if len(positions) > 14:
+                # large rule sets: the first and last positions and a sample of the others
+                positions = sorted(set(positions[:4] + positions[-4:] + rng.sample(positions, 6)))
+            for k in positions:
+                for act in ("a", "e"):
+                    if seq[k][0] in (IMPORT, IMPORTED) and act == "a":
+                        continue      # abort on a module message: not specified by the property
+                    scans.append(("%d:%s" % (k, act), k, act))
+            for script, k, act in scans:
+                use_scanner = rng.random() < 0.6
+                if use_scanner:
+                    lines.append("scan s0 mem %d %d 0 %s" % (j, flags, script))
+                else:
+                    lines.append("scan r0 mem %d %d 0 %s" % (j, flags, script))
+            plans.append((flags, seq, scans))
+    meta = dict(src="\n".join("// %s\n%s" % p for p in pieces), plans=plans, skip=has_ref_in_bad, buf=bufs[0].hex() + " / " + bufs[1].hex(),
                 shape=(nns, len(imports_order), sum(r["glob"] for r in rules), sum(r["priv"] for r in rules),
                        len(bad_ns)))
     return Case(cid, lines, meta)
@@ -183,11 +205,12 @@ def main(args):
     return chk.finish(
         evaluations=stats["scans"],
         distinct_nontrivial=len(stats["nontrivial"]),
-        rule="per generated rule set (1-3 namespaces, global/private/global+private/ordinary rules with known truth: "
-             "constants, filesize tests, a planted/absent string incl. the required-strings shortcut, references; 0-3 "
+        rule="per generated rule set (1-3 or 10-12 namespaces whose names may be prefixes of one another, global/private/global+private/ordinary rules with known truth: "
+             "constants, filesize tests, a planted/absent string incl. the required-strings shortcut, a chained hex string, references; 0-3 "
              "imports per namespace) and per report-flag setting (0, MATCHING, NOT_MATCHING, both): the uninterrupted "
              "message sequence is compared with the protocol model, then EVERY message position k x {abort, error} is "
-             "replayed (abort on module messages excluded: unspecified) through yr_rules_scan_mem or a reused scanner. "
+             "replayed (abort on module messages excluded: unspecified; sampled positions for the 10-12 namespace sets) "
+             "through yr_rules_scan_mem or one reused scanner, alternating between two buffers with opposite truth values. "
              "non-trivial = (rule set, flags) whose uninterrupted sequence agrees with the model and is then "
              "interrupted at every position; distinct by sha256(rule text, flags)",
         samples=stats["samples"],
